@@ -237,7 +237,7 @@ class HarnessGen:
         for r in spec.get('requires', []):
             if '__CPROVER_is_fresh' in r or r in early:
                 continue
-            if getattr(self, 'native_skip_ensures', False) and 'bv_t' in r:
+            if getattr(self, 'native_skip_bv_requires', getattr(self, 'native_skip_ensures', False)) and 'bv_t' in r:
                 L.append('#ifndef QX_NATIVE')
                 L.append('  __CPROVER_assume(%s);' % deimply(r))
                 L.append('#endif')
